@@ -420,6 +420,9 @@ def signatures(tname, enc, results):
         if fmt == "yaml_comments" and channel not in fails_plain_yaml:
             # only the commented dump fails: its text went through a second YAML library (root cause is the format)
             sig = "roundtrip:yaml_comments-only:%s" % verdict
+            if verdict == "unequal":
+                # the commented text parsed, but to another value: name the type so that the entry stays narrow
+                sig += ":" + ("Path" if tname == "PosixPath" else tname)
         else:
             # pathlib.Path and pathlib.PosixPath share one handler (and one class of instances on this platform)
             sig = "roundtrip:%s:%s:%s" % ("Path" if tname == "PosixPath" else tname, verdict, shp)
